@@ -61,6 +61,7 @@ class Job:
     native_ok: bool = True         # False: no native replay possible for this harness (say why in assumptions)
     allow_undefined: list = field(default_factory=list)  # callees deliberately left without body (nondet return)
     native_libs: list = field(default_factory=list)
+    weight: int = 1                # scheduling weight (memory-hungry jobs take several of the 16 slots)
     patched_units: dict = field(default_factory=dict)   # {unit: {"rename": [fn,..], "append": "C text"}}: own TU, static callees cut
 
 
@@ -81,6 +82,8 @@ class Ctx:
         self.par = jobs_parallel or int(os.environ.get("VERIF_JOBS", "0")) or min(16, os.cpu_count() or 4)
         self.mk_cache = {}
         self.kf_confirmed = set()
+        self.slots = self.par
+        self.cv = threading.Condition()
         self.t0 = time.time()
         self._gen_headers()
 
@@ -471,12 +474,21 @@ def native_run(exe, blob_path, timeout=60):
 
 def run_job(ctx, job):
     res = JobResult(job)
+    w = max(1, min(job.weight, ctx.par))
+    with ctx.cv:
+        while ctx.slots < w:
+            ctx.cv.wait()
+        ctx.slots -= w
     t0 = time.time()
     try:
         _run_job(ctx, job, res)
     except Exception as e:  # infrastructure problem: never a success
         res.status = "error"
         res.notes.append("exception: %s" % e)
+    finally:
+        with ctx.cv:
+            ctx.slots += w
+            ctx.cv.notify_all()
     res.wall_s = time.time() - t0
     return res
 
@@ -661,7 +673,7 @@ def run_property(prop, tier, jobs, level_text="", assumptions=(), explanation=""
         random.Random(seed).shuffle(jobs)   # the seed only permutes scheduling; the decision is the solver's
     results = []
     try:
-        with cf.ThreadPoolExecutor(ctx.par) as ex:
+        with cf.ThreadPoolExecutor(max(ctx.par, 4) * 4) as ex:
             futs = {ex.submit(run_job, ctx, j): j for j in jobs}
             for f in cf.as_completed(futs):
                 r = f.result()
